@@ -1352,6 +1352,9 @@ class Interp:
             # numpy would wrap around (or invoke undefined behaviour for floats): never a value the caller meant
             raise _Raise('OverflowError', f'{base} cast to {tname} wraps around', node)
           return int(base) if base == int(base) else int(base)
+        fmax = {'float32': 3.4028234663852886e38, 'float16': 65504.0}.get(tname.split('.')[-1])
+        if fmax is not None and abs(base) > fmax:
+          return float('inf') if base > 0 else float('-inf')   # a float type narrower than the value overflows to infinity
         return base
       if _is_num(base) and attr in ('flatten', 'ravel'):
         return NdArr((1,), [base])   # a 0-d array flattens to one element
